@@ -2,7 +2,7 @@ import Driver.Stor
 
 /-! Driver for domain C03 (compaction): see `Driver/Stor.lean`.  Facts arrive as `name=yes|no`. -/
 namespace Driver.C03
-open Hv.Storage Driver.Stor
+open Hv.BlockStore Driver.BStor
 
 def findingId (s : DS) : String :=
   match s.staleEp with
